@@ -1,3 +1,65 @@
-(* C16: placeholder while the proof files are being written *)
-From StarV Require Import Bytes.
-Theorem C16_placeholder : True. Proof. exact I. Qed.
+(* C16  ADSS sharing is deterministic up to the share point; recovery rebuilds it.
+   Statements only; every proof is `exact <lemma>`.  F is ANY permutation with byte-valued output
+   (Keccak-f as modelled is one: keccak_bytes_wf). *)
+From Coq Require Import ZArith NArith List.
+Import ListNotations.
+From StarV Require Import Params Bytes Keccak Strobe Fp Shamir Adss FieldFacts ShamirFacts AdssFacts.
+
+(* any selection of shares of one sharing (T = None) holding at least t distinct points - any order,
+   duplicates, surplus - recovers exactly (t, M, R); M and R of any length *)
+Theorem C16_recover : forall (F : list N -> list N), (forall l, wf (F l)) ->
+  forall (c : commune) (xs : list fp) (shs : list ashare),
+  cT c = None -> (1 <= cA c)%N ->
+  shares_at F c xs = Ok (Some shs) -> xs <> [] ->
+  (cA c <= N.of_nat (length (nodup fp_eq_dec xs)))%N ->
+  arecover F shs = Ok c.
+Proof. exact shares_recover. Qed.
+
+(* everything in a share except its point is a function of (t, M, R, T); the y values lie on
+   polynomials that are themselves a function of (t, M, R, T) *)
+Theorem C16_deterministic : forall (F : list N -> list N) (c : commune) (xs : list fp) (shs : list ashare),
+  shares_at F c xs = Ok (Some shs) ->
+  exists polys, polys_from F (cA c) (sharing_of F c) = Ok (Some polys) /\
+  Forall2 (fun x s => aA s = cA c /\ aS s = evaluate polys x /\ aC s = hC (sharing_of F c) /\
+                      aD s = hD (sharing_of F c) /\ aJ s = hJ (sharing_of F c)) xs shs.
+Proof. exact shares_static. Qed.
+
+(* the recovered sharing is the original one, so shares made from it are shares of the original
+   (same polynomial) and combine with the old ones *)
+Theorem C16_reshare : forall (F : list N -> list N), (forall l, wf (F l)) ->
+  forall (c c' : commune) (xs xs' : list fp) (shs : list ashare),
+  cT c = None -> (1 <= cA c)%N ->
+  shares_at F c xs = Ok (Some shs) -> xs <> [] ->
+  (cA c <= N.of_nat (length (nodup fp_eq_dec xs)))%N ->
+  arecover F shs = Ok c' ->
+  shares_at F c' xs' = shares_at F c xs'.
+Proof.
+  intros F HF c c' xs xs' shs HT Ht Hs Hne Hcnt Hr.
+  rewrite (shares_recover F HF c xs shs HT Ht Hs Hne Hcnt) in Hr. injection Hr as <-. reflexivity.
+Qed.
+
+(* threshold 0 never recovers, whatever the collection *)
+Theorem C16_zero_threshold : forall (F : list N -> list N) (s : ashare) (rest : list ashare),
+  aA s = 0%N -> arecover F (s :: rest) = Err.
+Proof. exact arecover_zero_threshold. Qed.
+
+(* a collection whose first share was made under (t, M, R, T) recovers that sharing (T = None) or
+   exhibits two different sharings with equal 64-byte MACs; in particular shares made under a custom
+   transcript T <> None are rejected unless such a coincidence exists *)
+Theorem C16_transcript : forall (F : list N -> list N)
+  (c : commune) (x : fp) (polys : list (list fp)) (rest : list ashare) (c' : commune),
+  polys_from F (cA c) (sharing_of F c) = Ok (Some polys) ->
+  arecover F (mk_share (cA c) (sharing_of F c) polys x :: rest) = Ok c' ->
+  c' = c \/ MacCoincidence F c c'.
+Proof. exact recover_authentic. Qed.
+
+Theorem C16_never_panics : forall (F : list N -> list N) (shs : list ashare), arecover F shs <> Panic.
+Proof. exact arecover_never_panics. Qed.
+
+(* the premises are satisfiable: Keccak-f as modelled is byte-valued, and the sampler does return *)
+Theorem C16_premise_keccak : forall l, wf (keccak_bytes l).
+Proof. exact keccak_bytes_wf. Qed.
+Example C16_nonvacuous :
+  exists shs, shares_at keccak_bytes {| cA := 2; cM := [1; 2; 3]%N; cR := [5]%N; cT := None |} [mkfp 7; mkfp 9] = Ok (Some shs)
+              /\ length shs = 2%nat.
+Proof. eexists. split; [vm_compute; reflexivity|reflexivity]. Qed.
